@@ -18,8 +18,11 @@ class ConcV:
             if name.endswith("_scaler"): v = s.rnd.choice([0, 1, 2, 3, 253, 254, 255, s.rnd.randrange(256)])
             s.given[name] = list(v.to_bytes(nbytes, "big"))
         bs = s.raw(name, nbytes); return bs, int.from_bytes(bytes(bs), "big", signed=signed)
-    def text(s, name, L):
-        if name not in s.given: s.given[name] = [s.rnd.randrange(0x20, 0x7F) for _ in range(L)]
+    def text(s, name, L, ascii_all=False):
+        if name not in s.given:
+            s.given[name] = [s.rnd.randrange(0x20, 0x7F) for _ in range(L)]
+            if ascii_all and not getattr(s, "printable_only", False) and s.rnd.random() < 0.5:        # control characters, NUL at either end
+                for _ in range(s.rnd.randrange(1, 4)): s.given[name][s.rnd.choice([0, L - 1, s.rnd.randrange(L)])] = s.rnd.choice([0, 0, 9, 10, 13, 0x1B, 0x7F, s.rnd.randrange(0x20)])
         return s.raw(name, L)
     def not_prefix(s, chars, prefix):
         if bytes(chars[:len(prefix)]) == bytes(prefix): chars[0] = ord("1")
@@ -154,3 +157,19 @@ def float_sweep(p):
         if bad: break
     return {"name": "float rounding lemma round(v*10**-k, k) == v/10**k", "bound": "k in (1,2,3): first 200000, last 100000, 300000 random and every 65521st of the 2^32 register values (thorough: all 2^32)", "evaluations": ev,
             "distinct_nontrivial": ev, "violations": bad[:2]}
+
+def kaifa_text_control_octets(p):
+    """C08 probe outside the printable range (known finding): Kaifa identification strings are octet-strings decoded with PaddedString - trailing NUL characters are dropped - and
+    twelve octets that form a date-time are read as a date-time, so 'arbitrary ASCII identification strings ... verbatim' fails for these two families of ASCII strings"""
+    rnd = random.Random(p.get("seed", 0)); bad = []; ev = 0
+    probes = [("kaifa body 9 values", {"p0_text": list(b"KFM_00\x00")}, "identification string ending in NUL"),
+              ("kaifa body 9 values", {"p1_text": list(b"\x00\x00\x00\x00\x00\x00\x00")}, "identification string of NUL characters only"),
+              ("kaifa body 13 values, 12-character texts", {"p1_text": [0x07, 0x64, 1, 1, 1, 0, 0, 0, 0, 0, 0, 0]}, "12-character identification string of control characters that encodes a date-time")]
+    cases = all_cases()
+    for label, given, what in probes:
+        build = cases.get(label)
+        if build is None: continue
+        V = ConcV(rnd, dict(given)); module, func, octs, exp = build(V); ev += 1
+        b = run_case(module, func, octs, exp)
+        if b: bad.append({"layout": label, "what": what, "input": bytes(octs).hex(), "broken": b[:2]})
+    return {"name": "kaifa identification strings with control characters (known finding)", "bound": "three probe lists", "evaluations": ev, "distinct_nontrivial": ev, "violations": bad[:1]}
